@@ -74,8 +74,12 @@ class pcomp(object):
         These are the coefficients of `derived`.
         Basically, they are a re-scaling of the eigenvectors.
         """
-        return self._evecs * np.tile(np.sqrt(self._evals), self._nv).reshape(
-            self._nv, self._nv)
+        #
+        # Eigenvalues of a singular correlation/covariance matrix can come
+        # back as tiny negative numbers; their square root must not be NaN.
+        #
+        return self._evecs * np.tile(np.sqrt(np.maximum(self._evals, 0.0)),
+                                     self._nv).reshape(self._nv, self._nv)
 
     @lazyproperty
     def derived(self):
